@@ -378,7 +378,24 @@ class Connection(object):
             self._logger.debug('TX %d octets, remain %d octets (msg empty %s)', sent_size, len(
                 self.__tx_buf), up_empty)
         cont = (not buf_empty or not up_empty)
+        if not cont:
+            self.send_buffer_drained()
         return cont
+
+    def send_buffer_pending(self):
+        ''' Get the number of octets taken from :py:meth:`send_raw` which
+        are not yet written to the socket.
+
+        :return: The buffer use (octets).
+        :rtype: int.
+        '''
+        return len(self.__tx_buf)
+
+    def send_buffer_drained(self):
+        ''' A handler function to be used when all pending data has been
+        written to the socket.
+        '''
+        pass
 
     def send_ready(self):
         ''' Called to indicate that :py:meth:`send_raw` will return non-empty.
@@ -1270,9 +1287,13 @@ class ContactHandler(Messenger, dbus.service.Object):
 
     def _check_sess_term(self):
         ''' Perform post-termination logic. '''
-        if self._in_term and self._term_peer and self.is_sess_idle():
+        if (self._in_term and self._term_peer and self.is_sess_idle()
+                and not self.send_buffer_pending()):
             self._logger.info('Closing in terminating state')
             self.close()
+
+    def send_buffer_drained(self):
+        self._check_sess_term()
 
     def recv_sess_term(self, reason):
         Messenger.recv_sess_term(self, reason)
